@@ -1200,32 +1200,91 @@ func c3Slices(c *Ctx) {
 				continue
 			}
 			elem := sl.Elem()
+			isApp := func(cl ssa.CallInstruction) bool {
+				return cl.Common().IsInvoke() && strings.HasPrefix(cl.Common().Method.Name(), "Append")
+			}
+			// the one Append call: in the method, in a function literal of it, or in the function (a method
+			// expression, say) it hands to the helper that owns the loop
 			var app *ssa.Call
+			var appFn *ssa.Function
 			cnt := 0
-			for _, cl := range Calls(fn) {
-				if cl.Common().IsInvoke() && strings.HasPrefix(cl.Common().Method.Name(), "Append") {
+			for _, cl := range CallsDeep(fn) {
+				if isApp(cl) {
 					app, _ = cl.(*ssa.Call)
+					appFn = cl.Parent()
 					cnt++
 				}
 			}
+			for _, cl := range Calls(fn) {
+				for _, a := range Args(cl) {
+					var g *ssa.Function
+					switch x := Strip(a).(type) {
+					case *ssa.Function:
+						if x.Synthetic != "" {
+							g = x
+						}
+					case *ssa.MakeClosure:
+						g, _ = x.Fn.(*ssa.Function)
+					}
+					if g != nil {
+						for _, gc := range Calls(g) {
+							if isApp(gc) {
+								app, _ = gc.(*ssa.Call)
+								appFn = g
+								cnt++
+							}
+						}
+					}
+				}
+			}
 			if cnt != 1 || app == nil {
-				c.Bad("R3.4", name, "append", fn.Pos(), "expected exactly one Append call in the loop, found %d", cnt)
+				c.Bad("R3.4", name, "append", fn.Pos(), "expected exactly one Append call per element, found %d", cnt)
 				continue
 			}
 			q := app.Call.Method.Type().(*types.Signature).Params().At(0).Type()
+			recvN := PN(fn.Params[0])
+			// unconverted(v, f, base): v is an element of base - base[i] - or a value-preserving conversion of one
+			unconverted := func(arg ssa.Value, base string) bool {
+				d := Desc(arg)
+				direct := strings.HasPrefix(d, base+"[") && !strings.Contains(d, "conv[")
+				// generic ~string element: a string(x) conversion to the identical underlying type is value preserving
+				if cv, ok := arg.(*ssa.Convert); ok && types.Identical(cv.X.Type().Underlying(), cv.Type().Underlying()) {
+					direct = strings.HasPrefix(Desc(cv.X), base+"[")
+				}
+				if ct, ok := arg.(*ssa.ChangeType); ok {
+					direct = strings.HasPrefix(Desc(ct.X), base+"[")
+				}
+				return direct
+			}
 			arg := app.Call.Args[0]
 			d := Desc(arg)
-			recvN := PN(fn.Params[0])
-			direct := strings.HasPrefix(d, recvN+"[") && !strings.Contains(d, "conv[")
-			// generic ~string element: a string(x) conversion to the identical underlying type is value preserving
-			if cv, ok := arg.(*ssa.Convert); ok && types.Identical(cv.X.Type().Underlying(), cv.Type().Underlying()) {
-				direct = strings.HasPrefix(Desc(cv.X), recvN+"[")
-			}
-			if ct, ok := arg.(*ssa.ChangeType); ok {
-				direct = strings.HasPrefix(Desc(ct.X), recvN+"[")
+			visits, why, loopCall, loopFn := VisitsAll(fn, isApp, fn.Params[0])
+			direct, over := false, recvN
+			if visits && loopFn == fn && loopCall == app {
+				direct = unconverted(arg, recvN)
+			} else if visits && loopCall != nil && loopFn != nil && loopFn != appFn {
+				// the loop is a helper's: it hands its elements, unconverted, to the function it was given, and that
+				// function hands its own parameter, unconverted, to the Append method
+				_, ov, _ := LoopVisitsAll(loopFn, loopCall)
+				largs := loopCall.Call.Args
+				if len(largs) > 0 && len(appFn.Params) > 0 {
+					last := appFn.Params[len(appFn.Params)-1]
+					inner := Strip(arg) == ssa.Value(last)
+					if cv, ok := arg.(*ssa.Convert); ok && types.Identical(cv.X.Type().Underlying(), cv.Type().Underlying()) {
+						inner = Strip(cv.X) == ssa.Value(last)
+					}
+					if ct, ok := arg.(*ssa.ChangeType); ok {
+						inner = Strip(ct.X) == ssa.Value(last)
+					}
+					direct = inner && unconverted(largs[len(largs)-1], ov)
+					d = Desc(largs[len(largs)-1]) + " → " + d
+				}
+			} else if !visits {
+				// (reported below with the reason)
+				_, over, _ = LoopVisitsAll(fn, app)
+				direct = unconverted(arg, recvN)
 			}
 			okT := types.Identical(q, elem) || types.Identical(q.Underlying(), coreType(elem))
-			visits, over, why := LoopVisitsAll(fn, app)
 			c.Check(direct && okT && visits && over == recvN, "R3.4", name, "every-element-unconverted", app.Pos(), "%s(%s) is called for every element of the receiver (elements of type %s, argument %s) %s", app.Call.Method.Name(), TypeName(q), TypeName(elem), d, why)
 			// returns nil (or the error just received)
 			for k, r := range Returns(fn) {
